@@ -44,10 +44,13 @@ def run(unit, em):
             W, extra = wl
             for pol, atom in extra:
                 a = strip(atom)
-                sizes = [x for x in walk(atom) if x['k'] == 'CXXMemberCallExpr' and method_name(x) == 'size']
+                from .prov import bool_leaves
+                sizes = [x for leaf in bool_leaves(fn, atom) for x in walk(leaf) if x['k'] == 'CXXMemberCallExpr' and method_name(x) == 'size' and
+                         leaf['k'] == 'BinaryOperator' and leaf.get('op') in ('==', '!=', '<', '>', '<=', '>=')]
+                sizes = sizes or [x for x in walk(atom) if x['k'] == 'CXXMemberCallExpr' and method_name(x) == 'size']
                 objs = {unit.text(strip(x.get('obj')), 0) for x in sizes}
                 if len(objs) >= 2:
-                    em.violation(lp, 'while (!%s.empty() && ...)' % W, 'the worklist loop also stops on `%s`, a comparison of the cardinalities of two different containers: equal counts do not mean everything was reached, queued elements are abandoned' % unit.text(atom, 70))
+                    em.violation(lp, 'while (!%s.empty() && ...)' % W, 'the worklist loop also stops on `%s`, a comparison of the cardinalities of two different containers (%s): equal counts do not mean everything was reached, queued elements are abandoned' % (unit.text(atom, 70), ' / '.join(sorted(objs))))
                 else:
                     em.ok(lp, 'while (!%s.empty() && ...)' % W, 'extra exit condition is not a cardinality comparison')
             breaks = []
